@@ -263,6 +263,93 @@ theorem relay_example :
        .eofRet .chan false, .close .chan, .close .sock] := by
   decide
 
+/-! ### the open fails in some other way; the destination side
+
+  `crashStep` and `destOpen` (Model/Forward.lean) are the two places where a relayed socket exists while the SSH
+  side of its relay is not (yet) there.  Both were found by an audit of the model against the code and are
+  replayed on the real code by the oracle (signatures `relay-sockets-leak:open-raises-other-exception`,
+  `relay-sockets-leak:connection-lost-while-connecting`). -/
+
+/-- **an exception other than ChannelOpenError is a failed open** (code after the repair): whatever the state,
+    `crashStep true` is the step of the event `.fail`, so every theorem about legal event sequences — in
+    particular `close_before_confirm`: the socket is closed — covers this outcome too. -/
+theorem crash_is_fail (v : Variant) (r : Relay) : crashStep true r = step v r .fail := by
+  simp only [crashStep, step]
+  split <;> simp_all
+
+/-- ... spelled out: whatever happened on the socket before, the crash of the open closes it -/
+theorem crash_closes_socket (v : Variant) (evs : List Ev) (hl : legalRun v initListener evs = true)
+    (ho : (run v initListener evs).1.phase = .opening) :
+    (crashStep true (run v initListener evs).1).1.s.tr = false ∧
+    closeOut .sock ((run v initListener evs).2 ++ (crashStep true (run v initListener evs).1).2) = true := by
+  have hleg : legalRun v initListener (evs ++ [.fail]) = true := by
+    have aux : ∀ (l : List Ev) (r : Relay), legalRun v r l = true → (run v r l).1.phase = .opening →
+        legalRun v r (l ++ [.fail]) = true := by
+      intro l
+      induction l with
+      | nil => intro r _ h; simp [legalRun, legal, run] at h ⊢; exact h
+      | cons e es ih =>
+        intro r h1 h2
+        simp only [legalRun, Bool.and_eq_true, List.cons_append, run] at h1 h2 ⊢
+        exact ⟨h1.1, ih _ h1.2 h2⟩
+    exact aux evs _ hl ho
+  have hrun : run v initListener (evs ++ [.fail]) =
+      ((step v (run v initListener evs).1 .fail).1,
+       (run v initListener evs).2 ++ (step v (run v initListener evs).1 .fail).2) := by
+    have aux : ∀ (l : List Ev) (r : Relay), run v r (l ++ [.fail]) =
+        ((step v (run v r l).1 .fail).1, (run v r l).2 ++ (step v (run v r l).1 .fail).2) := by
+      intro l
+      induction l with
+      | nil => intro r; simp [run]
+      | cons e es ih => intro r; simp only [List.cons_append, run, ih, List.append_assoc]
+    exact aux evs _
+  have h := close_before_confirm v (evs ++ [.fail]) hleg (Or.inr (by simp))
+  rw [hrun] at h
+  rw [crash_is_fail v]
+  exact ⟨h.2, h.1⟩
+
+/-- **the code before the repair left the socket open** (witness, replayed on the real code by the oracle): the
+    local client has connected and sent a byte, the open ends with, say, a PacketDecodeError: nothing is closed,
+    the relay has no channel side and never will have, and the socket transport stays up. -/
+theorem crash_leak_witness :
+    let r := (run .fixed initListener [.data .sock [1]]).1
+    (crashStepPreFix r).2 = [] ∧ (crashStepPreFix r).1.s.tr = true ∧ (crashStepPreFix r).1.phase = .failed ∧
+    (crashStep true r).2 = [.close .sock] ∧ (crashStep true r).1.s.tr = false := by
+  decide
+
+/-- **destination side, connection still there**: the pair made by `forward_connection` once the destination
+    is connected is exactly the listener-side relay right after its channel was confirmed (no early data), so
+    all relay theorems apply to it with `evs = .confirm :: rest`. -/
+theorem dest_open_is_confirmed_relay (fix : Bool) (v : Variant) :
+    destOpen fix true = run v initListener [.confirm] := by
+  rcases v with ⟨_ | _, _ | _⟩ <;> cases fix <;> decide
+
+/-- **destination side, SSH connection lost while the connect was in flight** (clause "all ... relayed sockets are
+    released when their connection ends"; code after the repair): the freshly connected socket is closed. -/
+theorem dest_conn_lost_closes :
+    (destOpen true false).2 = [.close .sock] ∧ (destOpen true false).1.s.tr = false ∧
+    (destOpen true false).1.c.tr = false := by
+  decide
+
+/-- **the code before the repair kept that socket for ever** (witness, replayed on the real code by the oracle):
+    no call is made on the socket transport, it stays up, the channel-side half has no transport and the relay is
+    not linked, so that no event of the channel can ever reach it (`legal` admits none): only the destination
+    itself can end the connection. -/
+theorem dest_conn_lost_witness :
+    (destOpenPreFix false).2 = [] ∧ (destOpenPreFix false).1.s.tr = true ∧ (destOpenPreFix false).1.c.tr = false ∧
+    (∀ e, legal (destOpenPreFix false).1 e = true → e = .lost .sock ∨ e = .pauseW .sock ∨ e = .resumeW .sock ∨
+      (∃ d, e = .data .sock d) ∨ e = .eof .sock) := by
+  refine ⟨by decide, by decide, by decide, ?_⟩
+  intro e he
+  cases e with
+  | data x d => cases x <;> simp_all [legal, destOpenPreFix, destOpen, Relay.get]
+  | eof x => cases x <;> simp_all [legal, destOpenPreFix, destOpen, Relay.get]
+  | lost x => cases x <;> simp_all [legal, destOpenPreFix, destOpen, Relay.get, Relay.has]
+  | pauseW x => cases x <;> simp_all [legal, destOpenPreFix, destOpen, Relay.get]
+  | resumeW x => cases x <;> simp_all [legal, destOpenPreFix, destOpen, Relay.get]
+  | confirm => simp [legal, destOpenPreFix, destOpen] at he
+  | fail => simp [legal, destOpenPreFix, destOpen] at he
+
 /-! ## the permission decision
 
   OpenSSH (sshd(8), AUTHORIZED_KEYS FILE FORMAT; ssh-keygen(1), CERTIFICATES): `no-port-forwarding` forbids TCP
@@ -276,10 +363,14 @@ theorem relay_example :
 
 /-- what the checked tree's handlers test, in the form the model mirrors (regenerated table) -/
 theorem handlers_check_credentials :
-    Gen.C20.checksOf .directTcpip = ⟨true, true, true⟩ ∧
-    Gen.C20.checksOf .tcpipForward = ⟨true, true, false⟩ ∧
-    Gen.C20.checksOf .directStreamlocal = ⟨true, true, false⟩ ∧
-    Gen.C20.checksOf .streamlocalForward = ⟨true, true, false⟩ ∧
+    Gen.C20.checksOf .directTcpip =
+      { key := true, cert := true, permitopen := true, maxPort := some 65535, pathNul := false } ∧
+    Gen.C20.checksOf .tcpipForward =
+      { key := true, cert := true, permitopen := false, maxPort := some 65535, pathNul := false } ∧
+    Gen.C20.checksOf .directStreamlocal =
+      { key := true, cert := true, permitopen := false, maxPort := none, pathNul := true } ∧
+    Gen.C20.checksOf .streamlocalForward =
+      { key := true, cert := true, permitopen := false, maxPort := none, pathNul := false } ∧
     (∀ k, Gen.C20.appAskedAfterChecks k = true) ∧
     Gen.C20.permitopenWildcardPort = true := by
   refine ⟨rfl, rfl, rfl, rfl, ?_, rfl⟩
@@ -327,17 +418,110 @@ theorem forward_only_if_permitted (kind : ReqKind) (k : KeyOpts) (c : Option Cer
       (repeat' split at h) <;> simp_all
 
 /-- **denied requests create nothing and are not shown to the application**; a refusal by the application
-    creates nothing either. -/
+    creates nothing either; neither does a request whose address the handler finds malformed. -/
 theorem denied_creates_nothing (kind : ReqKind) (k : KeyOpts) (c : Option CertOpts) (d : Dest) (app : Bool) :
     (permittedBy Gen.C20.lookup (Gen.C20.checksOf kind) k c d = false →
       decideReq Gen.C20.lookup (Gen.C20.checksOf kind) k c d app = (.prohibited, false)) ∧
+    (wellFormed (Gen.C20.checksOf kind) d = false →
+      decideReq Gen.C20.lookup (Gen.C20.checksOf kind) k c d app = (.prohibited, false)) ∧
     (app = false → (decideReq Gen.C20.lookup (Gen.C20.checksOf kind) k c d app).1 ≠ .created) ∧
-    (permittedBy Gen.C20.lookup (Gen.C20.checksOf kind) k c d = true → app = true →
+    (permittedBy Gen.C20.lookup (Gen.C20.checksOf kind) k c d = true →
+      wellFormed (Gen.C20.checksOf kind) d = true → app = true →
       decideReq Gen.C20.lookup (Gen.C20.checksOf kind) k c d app = (.created, true)) := by
-  refine ⟨?_, ?_, ?_⟩
+  refine ⟨?_, ?_, ?_, ?_⟩
+  · intro h; simp only [decideReq, h]; split <;> simp
   · intro h; simp [decideReq, h]
-  · intro h; subst h; simp only [decideReq]; split <;> simp
-  · intro h1 h2; simp [decideReq, h1, h2]
+  · intro h; subst h; simp only [decideReq]; (repeat' split) <;> simp_all
+  · intro h1 h2 h3; simp [decideReq, h1, h2, h3]
+
+/-! ### the address served is the address asked about
+
+  Ports travel as 32-bit numbers, the resolver reduces them modulo 2^16; the kernel cuts a socket path name at
+  its first NUL (`sockDest`, Model/Forward.lean).  The credential (permitopen) and the application are asked
+  about the address in the request, so a request may be served only if the socket layer takes that address
+  literally.  (A streamlocal-forward request whose path name has a NUL inside is shown to the application and
+  then fails in `create_unix_server` — ValueError from `os.stat`, reported as a failed request since the
+  repair of the listener creation —, nothing being created: the `createFailed` event of the listener table.) -/
+
+/-- **served_where_asked** (clause "served only if the server application and the credential's restrictions permit
+    *that destination*"): whenever a direct-tcpip, tcpip-forward or direct-streamlocal request is served, the
+    address the socket layer acts on is the address in the request, the one the credential checks and the
+    application decided about. -/
+theorem served_where_asked (kind : ReqKind) (hk : kind ≠ .streamlocalForward) (k : KeyOpts) (c : Option CertOpts)
+    (d : Dest) (app : Bool)
+    (h : (decideReq Gen.C20.lookup (Gen.C20.checksOf kind) k c d app).1 = .created) :
+    sockDest kind d = d := by
+  have hw : wellFormed (Gen.C20.checksOf kind) d = true := by
+    cases hwf : wellFormed (Gen.C20.checksOf kind) d
+    · rw [(denied_creates_nothing kind k c d app).2.1 hwf] at h; cases h
+    · rfl
+  obtain ⟨host, port⟩ := d
+  cases kind with
+  | directTcpip =>
+    simp only [wellFormed, Gen.C20.checksOf, Bool.and_eq_true, decide_eq_true_eq] at hw
+    simp only [sockDest, ReqKind.isTcp, if_true]
+    congr 1
+    exact Nat.mod_eq_of_lt (by omega)
+  | tcpipForward =>
+    simp only [wellFormed, Gen.C20.checksOf, Bool.and_eq_true, decide_eq_true_eq] at hw
+    simp only [sockDest, ReqKind.isTcp, if_true]
+    congr 1
+    exact Nat.mod_eq_of_lt (by omega)
+  | directStreamlocal =>
+    simp only [wellFormed, Gen.C20.checksOf, nulInPathName, Bool.true_and, Bool.not_eq_true',
+      Bool.and_eq_false_iff] at hw
+    simp only [sockDest, ReqKind.isTcp, Bool.false_eq_true, if_false]
+    split
+    · rfl
+    · rename_i hh
+      rcases hw with hw | hw
+      · congr 1
+        apply takeWhile_self_of_all
+        intro x hx
+        simp only [bne_iff_ne, ne_eq]
+        intro hx0
+        subst hx0
+        have : host.contains 0 = true := by simpa using hx
+        rw [hw] at this
+        cases this
+      · simp only [bne_eq_false_iff_eq] at hw
+        exact absurd hw hh
+  | streamlocalForward => exact absurd rfl hk
+
+/-- ... in particular a served TCP request names a port that exists -/
+theorem served_port_in_range (kind : ReqKind) (hk : kind.isTcp = true) (k : KeyOpts) (c : Option CertOpts)
+    (d : Dest) (app : Bool)
+    (h : (decideReq Gen.C20.lookup (Gen.C20.checksOf kind) k c d app).1 = .created) : d.port < 65536 := by
+  have hne : kind ≠ .streamlocalForward := by intro hh; subst hh; cases hk
+  have := served_where_asked kind hne k c d app h
+  cases kind <;> simp [ReqKind.isTcp] at hk <;>
+    (simp only [sockDest, ReqKind.isTcp, if_true] at this
+     have hp : d.port % 65536 = d.port := congrArg Dest.port this
+     have := Nat.mod_lt d.port (show 65536 > 0 by decide)
+     omega)
+
+/-- **the handlers before the repair served another address than the one asked about** (witnesses, replayed on
+    the real code by the oracle): with `permitopen="h:65558"` — or an application that refuses port 22 and only
+    port 22 — a direct-tcpip open for port 65558 was served and the connection made to port 22; a
+    direct-streamlocal open for `s\0.public` was served and the connection made to `s`. -/
+theorem address_rewritten_witness :
+    let k : KeyOpts := { permitopen := [([104], some 65558)] }
+    decideReqPreFix Gen.C20.lookup (Gen.C20.checksOf .directTcpip) k none ⟨[104], 65558⟩ true = (.created, true) ∧
+    sockDest .directTcpip ⟨[104], 65558⟩ = ⟨[104], 22⟩ ∧
+    decideReq Gen.C20.lookup (Gen.C20.checksOf .directTcpip) k none ⟨[104], 65558⟩ true = (.prohibited, false) ∧
+    decideReqPreFix Gen.C20.lookup (Gen.C20.checksOf .tcpipForward) {} none ⟨[104], 65536 + 12345⟩ true
+      = (.created, true) ∧
+    sockDest .tcpipForward ⟨[104], 65536 + 12345⟩ = ⟨[104], 12345⟩ ∧
+    decideReqPreFix Gen.C20.lookup (Gen.C20.checksOf .directStreamlocal) {} none ⟨[115, 0, 46, 112], 0⟩ true
+      = (.created, true) ∧
+    sockDest .directStreamlocal ⟨[115, 0, 46, 112], 0⟩ = ⟨[115], 0⟩ ∧
+    decideReq Gen.C20.lookup (Gen.C20.checksOf .directStreamlocal) {} none ⟨[115, 0, 46, 112], 0⟩ true
+      = (.prohibited, false) ∧
+    -- the name of an abstract socket (leading NUL) is used in full and still served
+    decideReq Gen.C20.lookup (Gen.C20.checksOf .directStreamlocal) {} none ⟨[0, 115, 0, 112], 0⟩ true
+      = (.created, true) ∧
+    sockDest .directStreamlocal ⟨[0, 115, 0, 112], 0⟩ = ⟨[0, 115, 0, 112], 0⟩ := by
+  decide
 
 /-- OpenSSH's documented rule, stated declaratively -/
 def opensshRule (kind : ReqKind) (k : KeyOpts) (c : Option CertOpts) (d : Dest) : Prop :=
@@ -406,59 +590,98 @@ theorem permitopen_parse_example :
     parsePermitopen (strBytes "a:b") = none := by
   decide +kernel
 
-/-! ## listeners -/
+/-! ## listeners
+
+  `llegalRun` (Model/Forward.lean): two creations for the same UNIX path are never in flight at once on one
+  connection, and — only for the code before the duplicate-path repair — no request names a UNIX path that is
+  already being forwarded.  TCP requests are unrestricted (the kernel refuses the second bind). -/
 
 /-- **listeners_released** (clause "all listeners ... are released when their connection ends"): whatever requests,
     cancellations and closes came before, right after `_cleanup` the listener table is empty and no listening
     socket of the connection is open. -/
-theorem listeners_released (fix : Bool) (evs : List LEv) :
-    (lrun fix {} (evs ++ [.cleanup])).table = [] ∧ (lrun fix {} (evs ++ [.cleanup])).listening = [] := by
-  have h := linv_run fix evs {} linv_init
-  have : lrun fix {} (evs ++ [.cleanup]) = lstep fix (lrun fix {} evs) .cleanup := by
-    have aux : ∀ (l : List LEv) (s : LState), lrun fix s (l ++ [.cleanup]) = lstep fix (lrun fix s l) .cleanup := by
-      intro l
-      induction l with
-      | nil => intro s; rfl
-      | cons e es ih => intro s; simp only [List.cons_append, lrun]; exact ih _
-    exact aux evs {}
+theorem listeners_released (v : LVariant) (evs : List LEv) (hl : llegalRun v {} evs = true) :
+    (lrun v {} (evs ++ [.cleanup])).table = [] ∧ (lrun v {} (evs ++ [.cleanup])).listening = [] := by
+  have h := linv_run v evs {} linv_init hl
+  have : lrun v {} (evs ++ [.cleanup]) = lstep v (lrun v {} evs) .cleanup := by
+    rw [lrun_append]; rfl
   rw [this]
-  exact ⟨(cleanup_empty fix _ h).1, (cleanup_empty fix _ h).2.1⟩
+  exact ⟨(cleanup_empty v _ h).1, (cleanup_empty v _ h).2.1⟩
 
 /-- ... and it stays so, as long as no listener-creation task that was in flight at cleanup completes afterwards
-    (code as it stands), or unconditionally (repaired variant). -/
-theorem listeners_stay_released (fix : Bool) (evs after : List LEv)
-    (h : fix = true ∨ ∀ id, LEv.created id ∉ after) :
-    (lrun fix {} (evs ++ [.cleanup] ++ after)).table = [] ∧
-    (lrun fix {} (evs ++ [.cleanup] ++ after)).listening = [] := by
-  have aux : ∀ (l m : List LEv) (s : LState), lrun fix s (l ++ m) = lrun fix (lrun fix s l) m := by
-    intro l
-    induction l with
-    | nil => intro m s; rfl
-    | cons e es ih => intro m s; simp only [List.cons_append, lrun]; exact ih _ _
-  rw [aux]
-  have hrel := listeners_released fix evs
-  have hcl : (lrun fix {} (evs ++ [.cleanup])).cleaned = true := by
-    rw [aux]
+    (code before the repair of that race), or unconditionally (repaired variant). -/
+theorem listeners_stay_released (v : LVariant) (evs after : List LEv) (hl : llegalRun v {} evs = true)
+    (h : v.fixRace = true ∨ ∀ id, LEv.created id ∉ after) :
+    (lrun v {} (evs ++ [.cleanup] ++ after)).table = [] ∧
+    (lrun v {} (evs ++ [.cleanup] ++ after)).listening = [] := by
+  rw [lrun_append]
+  have hrel := listeners_released v evs hl
+  have hcl : (lrun v {} (evs ++ [.cleanup])).cleaned = true := by
+    rw [lrun_append]
     simp only [lrun]
-    exact (cleanup_empty fix _ (linv_run fix evs {} linv_init)).2.2.1
-  exact released_run fix after _ hrel hcl h
+    exact (cleanup_empty v _ (linv_run v evs {} linv_init hl)).2.2.1
+  exact released_run v after _ hrel hcl h
 
-/-- **the side condition is needed for the code as it stands** (witness, replayed on the real code by the oracle):
+/-- **the repaired code needs no assumption about repeated UNIX paths**: a history in which requests are served
+    one at a time (each request finds no creation in flight — the server's global request queue) is legal for the
+    repaired variant, whatever paths it names and however often. -/
+theorem serial_history_legal (v : LVariant) (hv : v.fixDup = true) (evs : List LEv) : ∀ s,
+    (∀ pre k post, evs = pre ++ .request k true :: post → (lrun v s pre).pending = []) →
+    llegalRun v s evs = true := by
+  induction evs with
+  | nil => intro s _; rfl
+  | cons e es ih =>
+    intro s h
+    simp only [llegalRun, Bool.and_eq_true]
+    refine ⟨?_, ih _ ?_⟩
+    · cases e with
+      | request k g =>
+        cases g
+        · rfl
+        · have := h [] k es rfl
+          simp only [lrun] at this
+          simp [llegal, this, hv]
+      | _ => rfl
+    · intro pre k post hpre
+      have := h (e :: pre) k post (by rw [hpre]; rfl)
+      simpa [lrun] using this
+
+/-- **the side condition is needed for the code as it stood** (witness, replayed on the real code by the oracle):
     a forward request is granted, the connection is cleaned up while the listener is still being created
     (`getaddrinfo`/`create_server` pending), the task then completes, registers the listener in the dead
     connection's table and leaves its socket listening. -/
 theorem listener_leak_witness :
-    (lrun false {} [.request ([1], 0) true, .cleanup, .created 0]).listening = [0] ∧
-    (lrun true {} [.request ([1], 0) true, .cleanup, .created 0]).listening = [] := by
+    (lrun ⟨false, true⟩ {} [.request (.tcp [1] 0) true, .cleanup, .created 0]).listening = [0] ∧
+    (lrun ⟨true, true⟩ {} [.request (.tcp [1] 0) true, .cleanup, .created 0]).listening = [] := by
   decide
 
-/-- non-vacuity: two listeners, one cancelled by the peer, one closed by cleanup -/
+/-- **the same UNIX path forwarded twice, code before the repair** (witness, replayed on the real code by the
+    oracle): both requests are served one after the other, the second bind succeeds because asyncio removes the
+    socket file of the first, the table entry is overwritten, and after `_cleanup` the first listener is still
+    listening.  The history is not `llegalRun` for that variant — this is the assumption it states — and it is for
+    the repaired one, which refuses the second request. -/
+theorem unix_twice_leak_witness :
+    let evs := [LEv.request (.unix [47, 115]) true, .created 0, .request (.unix [47, 115]) true, .created 1]
+    (lrun ⟨true, false⟩ {} (evs ++ [.cleanup])).listening = [0] ∧
+    (lrun ⟨true, false⟩ {} (evs ++ [.cleanup])).table = [] ∧
+    llegalRun ⟨true, false⟩ {} evs = false ∧
+    llegalRun ⟨true, true⟩ {} evs = true ∧
+    (lrun ⟨true, true⟩ {} evs).listening = [0] ∧
+    (lrun ⟨true, true⟩ {} (evs ++ [.cleanup])).listening = [] := by
+  decide
+
+/-- non-vacuity: two listeners, one cancelled by the peer, one closed by cleanup; a TCP address requested twice
+    (the second bind fails); a UNIX path forwarded again after its first listener was cancelled -/
 theorem listeners_example :
-    (lrun false {} [.request ([1], 0) true, .created 0, .request ([2], 0) true, .created 1]).listening = [1, 0] ∧
-    (lrun false {} [.request ([1], 0) true, .created 0, .request ([2], 0) true, .created 1,
-      .cancel ([1], 0)]).listening = [1] ∧
-    (lrun false {} [.request ([1], 0) true, .created 0, .request ([2], 0) true, .created 1,
-      .cancel ([1], 0), .cleanup]).listening = [] := by
+    (lrun .asIs {} [.request (.tcp [1] 0) true, .created 0, .request (.tcp [2] 0) true, .created 1]).listening
+      = [1, 0] ∧
+    (lrun .asIs {} [.request (.tcp [1] 0) true, .created 0, .request (.tcp [2] 0) true, .created 1,
+      .cancel (.tcp [1] 0)]).listening = [1] ∧
+    (lrun .asIs {} [.request (.tcp [1] 0) true, .created 0, .request (.tcp [2] 0) true, .created 1,
+      .cancel (.tcp [1] 0), .cleanup]).listening = [] ∧
+    (lrun .fixed {} [.request (.tcp [1] 7) true, .created 0, .request (.tcp [1] 7) true, .created 1]).listening
+      = [0] ∧
+    (lrun .fixed {} [.request (.unix [47]) true, .created 0, .cancel (.unix [47]), .request (.unix [47]) true,
+      .created 1]).listening = [1] := by
   decide
 
 /-! ## the SOCKS parser -/
